@@ -19,7 +19,9 @@ RULE = ("case = (acyclic pre/post graph over 2-6 tasks with parameters and defau
         "keyword-only values or in **kw entries; argument values are ints and strings plus - in call(...) entries and "
         "(name, kwargs) requests - lists, dicts, sets, tuples, nested containers (equal ones built separately), 1 / 1.0 / True, "
         "None, NaN objects and objects with their own __eq__ and no __hash__; DIFFERENT tasks may bear the same name in different collections (namesakes, "
-        "own bodies, equal or different signatures), and several Task objects may wrap ONE body function or the products "
+        "own bodies, equal or different signatures); helper tasks may be registered in NO collection (plain Task objects "
+        "reached through pre/post lists only), so that dependency chains are deeper than the collection is large; several "
+        "Task objects may wrap ONE body function or the products "
         "of one factory - under the same name in another sub-collection or under another name - each with its own pre/post "
         "lists and options; optional default task; request list of length 0-3, every item under one of the names the task "
         "answers to, in one of four forms: names, (name, kwargs) pairs, contexts from the real Parser, argv through the real "
@@ -32,7 +34,9 @@ RULE = ("case = (acyclic pre/post graph over 2-6 tasks with parameters and defau
         "namesake tasks docs.build / www.build x every request list of length <=2 x dedupe on/off, and every ordered pair "
         "out of a menu of 6-8 argument lists for a task with *rest / keyword-only / **kw parameters called as pre- and "
         "post-task, every ordered pair out of 20 awkward values (as keyword / positional of a defaulted parameter) and out of 9 "
-        "*rest / **kw spellings for a task called as pre- and post-task, 81 pairs of (name, kwargs) requests; thorough adds every 4-task graph (3468) x every "
+        "*rest / **kw spellings for a task called as pre- and post-task, 81 pairs of (name, kwargs) requests, and every "
+        "pre/post pattern of dependency chains of depth 3-6 with one or two registered tasks and unregistered helpers; "
+        "thorough adds every 4-task graph (3468) x every "
         "request list of length <=2 with dedupe on, a random 12% of the length-3 requests / 25% of the dedupe-off runs")
 TRUSTED = ["Lean 4.33 kernel", "axioms propext/Classical.choice/Quot.sound only",
            "harness/props/c04.py correspondence + canonicalisation (Task subclass that records the literal call arguments)",
@@ -241,6 +245,9 @@ def build(case):
     subs = {}
     names = []
     for i, t in enumerate(case["tasks"]):
+        if t.get("hidden"):
+            names.append(None)  # a helper task that is in no collection: reachable through pre/post lists only
+            continue
         if t.get("ns"):
             if t["ns"] not in subs:
                 subs[t["ns"]] = Collection(t["ns"])
@@ -700,6 +707,8 @@ def rand_req(rng, tasks, form, prefer=()):
             if prefer and rng.random() < 0.6:
                 j = rng.choice(list(prefer))
             params = tasks[j]["params"]
+            if tasks[j].get("hidden"):
+                continue
             if form == "names" and needs_args(params):
                 continue
             if cli and not cli_requestable(params):
@@ -720,6 +729,9 @@ def rand_req(rng, tasks, form, prefer=()):
 
 def random_case(rng):
     n = rng.randint(2, 5)
+    chainy = rng.random() < 0.15
+    if chainy:
+        n = rng.randint(4, 6)
     tasks = []
     for i in range(n):
         t = {"name": rng.choice(["t%d", "t%d", "t_%d"]) % i, "params": rng.choice(MENUS if rng.random() < 0.7 else XMENUS),
@@ -733,6 +745,8 @@ def random_case(rng):
                 if rng.random() < 0.6:
                     t["params"] = tasks[j]["params"]
         t.update(rand_edges(rng, tasks, i))
+        if chainy and i > 0:  # a long dependency chain: every task leans on its predecessor
+            t[rng.choice(["pre", "post"])].append(rand_call(rng, tasks, i - 1))
         t.update(rand_options(rng, i))
         tasks.append(t)
     # several Task objects over one function (body_of) / over the products of one factory (code_of): same name in another
@@ -759,22 +773,37 @@ def random_case(rng):
             t = {"name": "t%d" % i, "params": [], "code_of": None, "body_of": None, "ns": None, "sub_default": False,
                  "pre": [rand_call(rng, tasks, rng.choice(derived))], "post": [], "aliases": [], "autoprint": False}
             tasks.append(t)
+    # helper tasks that are registered nowhere (plain Task objects referenced only from pre/post lists); the last task,
+    # which may depend on all others, always stays registered
+    if rng.random() < 0.3:
+        ph = rng.choice([0.4, 0.8])
+        for t in tasks[:-1]:
+            if rng.random() < ph:
+                t["hidden"] = True
+                t["ns"] = None
     for ns in set(t["ns"] for t in tasks if t["ns"]):
         if rng.random() < 0.5:
-            rng.choice([t for t in tasks if t["ns"] == ns])["sub_default"] = True
+            rng.choice([t for t in tasks if t["ns"] == ns and not t.get("hidden")])["sub_default"] = True
     form = rng.choice(["names", "pairs", "pairs", "cli", "cli", "program"])
     prefer = derived + [t[j] for t in tasks for j in ("body_of", "code_of") if t.get(j) is not None]
     prefer += [i for i, t in enumerate(tasks) if sum(1 for u in tasks if u["name"] == t["name"]) > 1]
+    prefer = [i for i in prefer if not tasks[i].get("hidden")]
+    if any(t.get("hidden") for t in tasks):
+        prefer += [len(tasks) - 1] * 2
     req = rand_req(rng, tasks, form, prefer)
     default = None
     if form in ("names", "program") and rng.random() < 0.15:
-        cands = [i for i, t in enumerate(tasks) if not t["ns"] and not needs_args(t["params"])]
+        cands = [i for i, t in enumerate(tasks) if not t["ns"] and not t.get("hidden") and not needs_args(t["params"])]
         if cands:
             default = rng.choice(cands)
             req = []
     if not req and default is None:
         form = "pairs"
         req = rand_req(rng, tasks, form, prefer)
+    if not req and default is None:  # e.g. everything requestable was skipped by chance: ask for the last task
+        j = len(tasks) - 1
+        req = [[j, [[q[0], rand_value(rng, q)] for q in named_params(tasks[j]["params"]) if q[1] is None],
+                spellings({"tasks": tasks}, j, False)[0]]]
     dedupe = rng.random() < 0.7
     via = "config"
     if form != "program" and dedupe and rng.random() < 0.3:
@@ -899,6 +928,25 @@ def run(ctx):
         g = [_t("build", [["t", ["i", 1]]])]
         cases.append({"tasks": g, "default": None, "form": "pairs", "req": [[0, [["t", v1]]], [0, [["t", v2]]]], "dedupe": True,
                       "dedupe_via": "config"})
+    # 2f. dependency chains of depth 3-6 whose helper tasks are registered in NO collection (plain Task objects reached
+    #     through pre/post lists only): every pre/post pattern of the links, one or two registered tasks, dedupe on/off
+    for depth in (3, 4, 5, 6):
+        for bits in itertools.product(("pre", "post"), repeat=depth - 1):
+            if depth == 6 and sum(b == "post" for b in bits) not in (0, 1, 4, 5) and not big:
+                continue
+            for second in (None, 0, depth - 2):
+                g = []
+                for i in range(depth):
+                    t = _t("h%d" % i)
+                    if i > 0:
+                        t[bits[i - 1]] = [[i - 1, [], []]]
+                    if i == depth - 1:
+                        t["post"] = t["post"] + [[0, [], []]]  # the chain's end is also a post-task of the top
+                    t["hidden"] = i != depth - 1 and i != second
+                    g.append(t)
+                rq = [[depth - 1, []]] + ([[second, []]] if second is not None else [])
+                for dd in (True, False):
+                    cases.append({"tasks": g, "default": None, "form": "names", "req": rq, "dedupe": dd, "dedupe_via": "config"})
     out.exhaustive = True
     n_exh = len(cases)
     # 3. random graphs with parameters, baked arguments, all request forms, several names per task, shared bodies,
@@ -939,6 +987,13 @@ def run(ctx):
                     out.hist["with_unhashable_arguments"] += 1
                 if any(x in blob for x in ('["f", ', '["b", ', '["nan", ', '["none"]', '["t", [')):
                     out.hist["with_cross_type_equal_nan_or_none_arguments"] += 1
+                if any(t.get("hidden") for t in c["tasks"]):
+                    out.hist["with_unregistered_helper_tasks"] += 1
+
+                    def depth_of(i, memo={}):
+                        return 1 + max([depth_of(e[0]) for e in c["tasks"][i]["pre"] + c["tasks"][i]["post"]] or [0])
+                    if max(depth_of(i) for i in range(len(c["tasks"]))) > sum(1 for t in c["tasks"] if not t.get("hidden")):
+                        out.hist["chain_deeper_than_registered_tasks"] += 1
                 if c.get("default") is not None:
                     out.hist["default_task"] += 1
                 if any(pos or kw for t in c["tasks"] for (_j, pos, kw) in t["pre"] + t["post"]):
